@@ -11,6 +11,9 @@ CONSTANTS
   Family = "leaf"
   DropK1 = FALSE
   Queries <- MCQueries
+  FixEmptySnapshot = FALSE
+  FixBoolAdvance = FALSE
+  FixShouldMin = FALSE
   FirstAdvanceOK <- FirstAdvAlways
 INVARIANT ResultOK
 INVARIANT NoPanic
